@@ -85,6 +85,7 @@ func cmdFn(args []string) {
 	repo := fs.String("repo", "/repo", "")
 	timeout := fs.Int("t", 10, "")
 	only := fs.String("only", "", "")
+	propF := fs.String("prop", "", "only obligations tagged with this property")
 	escal := fs.Bool("esc", false, "")
 	verbose := fs.Bool("v", false, "")
 	patch := fs.String("patch", "", "unified diff applied through the loader overlay")
@@ -122,7 +123,7 @@ func cmdFn(args []string) {
 			}
 			var jobs []job
 			for _, o := range fe.obls {
-				if *only == "" || strings.Contains(o.ID, *only) {
+				if (*only == "" || strings.Contains(o.ID, *only)) && (*propF == "" || hasProp(o.Props, *propF)) {
 					jobs = append(jobs, job{fe, o})
 				}
 			}
